@@ -132,6 +132,7 @@ class Tpl:
         self.trailing = False
         self.post = []            # span follow-up operations
         self.group = ""
+        self.fragile = False      # compiles only because of the exact shape of one arm group: kept in a module of its own
         self._slot = 0
         self._tick = 0
         self._var = 0
@@ -602,33 +603,95 @@ def build():
         if q % 3 == 0:
             t.post.append({"op": "record", "name": names[0].upper(), "vk": "i16", "slot": t.slot(), "tick": None, "var": t.var()})
             t.post.append({"op": "record", "name": names[2] + ".", "vk": "str", "slot": t.slot(), "tick": None, "var": t.var()})
+    # ---- G: every macro x every prefix set x every shorthand form (`foo`, `?foo`, `%foo`, dotted), as FIRST field and in a
+    # later position, on values whose Display and Debug differ: the forwarding arms of the level macros look at the first
+    # tokens after the prefixes, so which arm is entered depends on (macro, prefix set, form of the first field, what follows).
+    # What does not compile in the macros as they are (so cannot be in a compiled corpus):
+    #   level macro + a prefix set with name:/target: + a DOTTED first field (`local ambiguity`, see first_ok);
+    #   level macro + `parent:` only + a shorthand that is the whole field list (no arm; needs a trailing comma);
+    #   event! + braces without message, without name:/target: (the catch-all arm wraps the braces again).
+    SH_FORMS = [("path", ""), ("path", "?"), ("path", "%"), ("dotted", ""), ("dotted", "?"), ("dotted", "%")]
+    for kind, macros, nmask in (("event", EVENT_MACROS, 8), ("span", SPAN_MACROS, 4)):
+        for mi, m in enumerate(macros):
+            for mask in range(nmask):
+                level_pref = kind == "event" and m != "event" and mask != 0
+                parent_only = level_pref and mask == 4
+                for fi, (nk, sg) in enumerate(SH_FORMS):
+                    vk = ["dd", "str"][(fi + mi + mask) % 2] if sg else ["str", "u64", "bool"][(fi + mi + mask) % 3]
+                    first_allowed = not (level_pref and not parent_only and nk == "dotted")
+                    # variant 0: the form first, then a k = v field, then the sibling form (path <-> dotted) in a later position
+                    t = new(kind, m)
+                    t.group = "G"
+                    set_prefix(t, mask)
+                    # a dotted first shorthand after `parent:` alone compiles only with the long-hand arm group (`k, rest`): if that
+                    # group is rewritten in the compact shape of the other groups it becomes a `local ambiguity` error
+                    fragile = parent_only and nk == "dotted"
+                    t.fragile = fragile
+                    if first_allowed:
+                        t.items.append(mk_item(t, "sh", nk, sg, vk, 0))
+                    t.items.append(mk_item(t, "kv", "path", "", "u8", 1))
+                    nk2, sg2 = SH_FORMS[(fi + 3) % 6]
+                    t.items.append(mk_item(t, "sh", nk2, sg2, ["str", "dd"][(fi + mi + mask) % 2] if sg2 else "i16", 2))
+                    if not first_allowed:
+                        t.items.append(mk_item(t, "sh", nk, sg, vk, 3))
+                    if kind == "event" and (fi + mask) % 4 == 0:
+                        t.fmt = mk_fmt(t, rng, 1, style=fi + mask + mi)
+                    # variant 1: the form alone
+                    if first_allowed:
+                        t = new(kind, m)
+                        t.group = "G"
+                        set_prefix(t, mask)
+                        t.items.append(mk_item(t, "sh", nk, sg, vk, 0))
+                        t.fragile = fragile
+                        t.trailing = parent_only or (fi + mask) % 5 == 0
+                # event!(name:/target: .., LEVEL, { fields }) : the base arms entered directly (braces, no message)
+                if kind == "event" and m == "event" and mask & 3:
+                    t = new(kind, m)
+                    t.group = "G"
+                    set_prefix(t, mask)
+                    t.brace = True
+                    t.items.append(mk_item(t, "kv", "path", "%", "dd", 0))
+                    t.items.append(mk_item(t, "sh", "path", "?", "str", 1))
+                    t.trailing = bool(mask & 4)
     return tpls
 
 
-NFILES = 8
+NFILES = 12
 
 
 def rust_files(tpls):
-    """{relative path under harness/fields/src/gen: text}"""
+    """{relative path under harness/fields/src/gen: text}.  Templates marked `fragile` go to gfragile.rs, compiled unless the
+    cargo feature `no_fragile` is on: when a change of the macros makes one of those forms a compile error, the driver reports
+    that and still checks the rest of the corpus."""
     files = {}
     chunks = [[] for _ in range(NFILES)]
+    frag = []
     for t in tpls:
-        chunks[t.id % NFILES].append(t)
+        if t.fragile:
+            frag.append(t)
+        else:
+            chunks[t.id % NFILES].append(t)
     hdr = ("// GENERATED by driver/props/c10_corpus.py — deterministic; do not edit.\n"
            "#![allow(unused_variables, unused_mut, unused_imports, non_snake_case, clippy::all)]\n"
            "use crate::support::*;\n")
-    for k, ch in enumerate(chunks):
+
+    def one(ch):
         body = [hdr]
         for t in ch:
             body.append(rust_of(t))
         body.append("pub const INVS: &[(u32, Inv)] = &[\n%s];\n" % "".join("    (%d, inv_%d),\n" % (t.id, t.id) for t in ch))
-        files["g%d.rs" % k] = "\n".join(body)
+        return "\n".join(body)
+    for k, ch in enumerate(chunks):
+        files["g%d.rs" % k] = one(ch)
+    files["gfragile.rs"] = one(frag)
     mod = ["// GENERATED by driver/props/c10_corpus.py — deterministic; do not edit."]
     for k in range(NFILES):
         mod.append("pub mod g%d;" % k)
+    mod.append("#[cfg(not(feature = \"no_fragile\"))]\npub mod gfragile;")
     mod.append("pub fn all() -> Vec<(u32, crate::support::Inv)> {\n    let mut v = Vec::new();")
     for k in range(NFILES):
         mod.append("    v.extend_from_slice(g%d::INVS);" % k)
+    mod.append("    #[cfg(not(feature = \"no_fragile\"))]\n    v.extend_from_slice(gfragile::INVS);")
     mod.append("    v.sort_by_key(|x| x.0);\n    v\n}")
     files["mod.rs"] = "\n".join(mod) + "\n"
     return files
